@@ -1,6 +1,6 @@
 (* Entry.v — executable entry points of the model, one per correspondence family:
    decode a case, run the model, encode the observable. *)
-From SLT Require Export Decode Runner.
+From SLT Require Export Decode Runner Parser.
 Open Scope N_scope.
 
 Definition e_event (e : event) : val :=
@@ -67,7 +67,31 @@ Definition run_case (v : val) : val :=
   let b := run_case_with no_subst true v in
   if val_eqb a b then a else VS (lit "oracle-miss").
 
+(* ---- family "parse": case = [text; two-letter column type?; re_valid table [[pattern, bool]...]] *)
+Fixpoint tbl1_lookup (tbl : list val) (dflt : bool) (s : str) : bool :=
+  match tbl with
+  | [] => dflt
+  | e :: r => if str_eqb (get_s (arg 0 e)) s then get_b (arg 1 e) else tbl1_lookup r dflt s
+  end.
+
+Definition e_presult (r : presult) : val :=
+  match r with
+  | POk rs => vtag "ok" [vlist e_record rs]
+  | PErr k n => vtag "err" [VN (pkind_code k); VN n]
+  | PPanic => vtag "panic" []
+  end.
+
+Definition parse_case_with (dflt : bool) (v : val) : val :=
+  let col := if get_b (arg 1 v) then two_col else default_col in
+  e_presult (parse col (tbl1_lookup (get_l (arg 2 v)) dflt) (lit "t.slt") None (get_s (arg 0 v))).
+
+Definition parse_case (v : val) : val :=
+  let a := parse_case_with false v in
+  let b := parse_case_with true v in
+  if val_eqb a b then a else VS (lit "oracle-miss").
+
 (* family dispatcher used by the extracted runner and by the vm_compute cross-check *)
 Definition model_main (fam : str) (v : val) : val :=
   if str_eqb fam (lit "run") then run_case v
+  else if str_eqb fam (lit "parse") then parse_case v
   else VS (lit "unknown-family").
